@@ -251,6 +251,31 @@ def _run_case(case, res):
                 res.count("perm_sequences")
                 if sorted(map(str, got)) != sorted(map(str, range(sh.n))):
                     fail(f"iterator({method}) is not a permutation: {got}")
+            elif case["mode"] == "sysroot":
+                # start node = the tree's system root: whatever the iterator yields for (method, add_self), visit() has to call
+                # back in the same order, and a stop signal at the k-th callback ends it there
+                root = t.system_root
+                seq = [idx_of.get(id(n), "ROOT") for n in root.iterator(im, add_self=add_self)]
+                kth = case.get("stop_at")
+                trace = []
+
+                def cb(node, memo):
+                    trace.append(idx_of.get(id(node), "ROOT"))
+                    if kth is not None and len(trace) == kth + 1:
+                        from nutree import StopTraversal
+
+                        return StopTraversal(41)
+                    return None
+
+                ret = root.visit(cb, add_self=add_self, method=im)
+                res.count("sysroot_visits")
+                exp = seq if kth is None or kth >= len(seq) else seq[: kth + 1]
+                if trace != exp:
+                    fail(f"system_root.visit({method}, add_self={add_self}, stop at callback #{kth}): trace {trace}, the iterator yields {seq}")
+                elif kth is not None and kth < len(seq) and ret != 41:
+                    fail(f"system_root.visit() returned {ret!r} after a StopTraversal(41) at callback #{kth}")
+                if not add_self and seq != sh.order(-1, method, False):
+                    fail(f"system_root.iterator({method}) yields {seq}, expected {sh.order(-1, method, False)}")
             elif case["mode"] == "unsupported":
                 # an entry point may refuse a method with NotImplementedError, or support it fully
                 try:
@@ -343,6 +368,10 @@ def cases_for_shape(f, *, cls, all_forms, rng):
                         yield {"cls": cls, "f": fc, "start": s, "method": m, "add_self": add_self, "mode": "visit",
                                "sig": {"at": at, "form": form}}
     if sh.n:
+        for m in VISIT_METHODS:
+            for add_self in (False, True):
+                for stop_at in (None, 0, 1, sh.n - 1):
+                    yield {"cls": cls, "f": fc, "start": -1, "method": m, "add_self": add_self, "mode": "sysroot", "stop_at": stop_at}
         for m in ("random", "unordered"):
             yield {"cls": cls, "f": fc, "start": -1, "method": m, "add_self": False, "mode": "perm"}
             yield {"cls": cls, "f": fc, "start": -1, "method": m, "add_self": False, "mode": "perm", "prelude": True, "pseed": sh.n}
